@@ -202,8 +202,8 @@ def run_job(job):
         home = runner.make_home(sc)
         d = os.path.join(w, "d")
         os.mkdir(d)
-        shape = rng.choice(["empty", "one", "many", "many", "many", "big"])
-        n = {"empty": 0, "one": 1, "many": rng.randint(2, 14), "big": 3}[shape]
+        shape = job.get("shape") or rng.choice(["empty", "one", "many", "many", "many", "big"])
+        n = {"empty": 0, "one": 1, "many": rng.randint(2, 14), "big": 3, "thousands": 40}[shape]
         made = []
         for nm in gen_names(rng, n):
             try:
@@ -212,6 +212,12 @@ def run_job(job):
                 made.append(nm)
             except OSError as e:
                 res.inc("name refused by the file system: %r %s" % (nm, e))
+        if shape == "thousands":
+            # several thousand rows (plain names next to the hostile ones): output buffers are filled and flushed many times
+            for i in range(job.get("rows", 3000)):
+                with open(os.path.join(d, "r%05d%s" % (i, rng.choice(["", ".txt", ",x", ' "q"', "&<>", "\tz"]))), "w") as f:
+                    f.write("x" * (i % 7))
+            res.count("tables_with_thousands_of_rows")
         if shape == "big":
             # one record larger than 8 KiB of multi-byte text for the CSV writer's buffer boundary
             big = "dir" + "日" * 60
@@ -230,6 +236,13 @@ def run_job(job):
         for qi in range(job["queries"]):
             frm = rng.choice(["d", "d", "d", "d, e", "e, d", "d dfs", "d, e, d", "e, e"])
             path = rng.choice(["streamed", "ordered", "aggregate", "grouped"])
+            if shape == "thousands":
+                # fselect recomputes every aggregate over all rows seen so far for each new row (quadratic, upstream design):
+                # aggregates over thousands of rows are a matter of patience, not of this property
+                if job.get("rows", 3000) > 3000:
+                    path = rng.choice(["streamed", "ordered"])
+                elif path in ("aggregate", "grouped"):
+                    frm = "d"
             ncols = rng.randint(1, 6)
             if path in ("streamed", "ordered"):
                 cols = rng.sample(COLS, ncols)
@@ -261,7 +274,7 @@ def run_job(job):
                 if r0.verdict == "ok":
                     res.viol("`%s into list`: status %s stderr %r" % (q, r0.rc, r0.err[:150]), {"query": q, "result": r0.brief()})
                 else:
-                    res.inc("watchdog %s" % r0.verdict)
+                    res.inc("watchdog %s on `%s`" % (r0.verdict, q))
                 continue
             try:
                 ref = r0.rows(ncols) if ncols > 1 else [(x,) for x in r0.rows()]
@@ -331,10 +344,12 @@ def main(chk):
     quick = chk.tier == "quick"
     n = 240 if quick else 2000
     jobs = [{"id": "j%d" % i, "seed": job_seed(chk.seed, "C09", i), "queries": 6 if quick else 10} for i in range(n)]
+    jobs += [{"id": "k%d" % i, "seed": job_seed(chk.seed, "C09", "k%d" % i), "queries": 4, "shape": "thousands", "rows": 3000 if i % 2 else 9000}
+             for i in range(4 if quick else 24)]
     chk.run_jobs(jobs, budget_s=300 if quick else 3000)
     return chk.finish(
         rule="directories whose file names are drawn from every printable ASCII punctuation character, TAB/LF/CR and other control "
-             "characters, all three quote kinds, < > &, multi-byte UTF-8 and emoji (0, 1, many rows; one case with a > 8 KiB record); "
+             "characters, all three quote kinds, < > &, multi-byte UTF-8 and emoji (0, 1, many rows; one case with a > 8 KiB record; tables of 3000 and 9000 rows); "
              "select lists of 1..6 distinct columns; one root, two roots in either order, a root listed twice; each query is run `into list` (reference table) and into json, csv, html, tabs, lines on "
              "the streamed, ordered, aggregate and grouped result paths; outputs are decoded with json.loads, a strict RFC 4180 parser, a "
              "tag-stack HTML parser and compared with the reference table. Non-trivial = >= 1 row; distinct by (path, query, rows).",
